@@ -15,6 +15,8 @@ def plan(tier, prop):
                     continue
                 items.append((sp, ["eval_root", "eval_sub"], st, 2 if tier == "quick" else 3, {prop}, (False, ("inproc", "restart"))))
                 # revert histories (A, B, A) of a kept top-level node with nested keeps: depth 3 over the leaf's edit point only
+                if "top_n0" not in sp["entries"]:
+                    continue
                 sp3 = dict(sp, eps=[e for e in sp["eps"] if e["id"] == "V2"], id=sp["id"] + "/top")
                 if st in ("local", "local_cache2", "dbfs") and (tier != "quick" or "fan" in sp["id"]):
                     # two long-lived processes alternate on one store (each keeps its object cache and in-process state)
